@@ -301,8 +301,8 @@ Record engine := mkEng {
   e_wakers : list (Z * Z);       (* timeline.wakers: (closure id, deadline) *)
   e_procs : list proc;           (* PySimEngine._processes *)
   e_tbs : list proc;             (* PySimEngine._testbenches *)
-  e_delta : Z;                   (* _delta_cycles        — not reset *)
-  e_active : list Z;             (* _active_triggers     — not reset (S5) *)
+  e_delta : Z;                   (* _delta_cycles        — not reset (only used for VCD time stamps) *)
+  e_active : list Z;             (* _active_triggers     — cleared by reset() since fix 3953703 (S5) *)
   e_running : bool               (* Simulator._running *)
 }.
 
@@ -317,8 +317,13 @@ Definition reset_proc (p : proc) : proc :=
   | PClock ph pe _ _ _ => PClock ph pe true false true
   | PAsync bg _ _ _ _ _ => PAsync bg true (negb bg) true (-1) 0
   end.
-(* Simulator.reset -> PySimEngine.reset -> _PyEngineState.reset (timeline, slots, pending), processes, testbenches *)
+(* Simulator.reset -> PySimEngine.reset -> _PyEngineState.reset (timeline, slots, pending),
+   _active_triggers.clear(), processes, testbenches *)
 Definition reset (e : engine) : engine :=
+  mkEng (map reset_slot (e_slots e)) [] 0 [] (map reset_proc (e_procs e)) (map reset_proc (e_tbs e))
+        (e_delta e) [] false.
+(* PySimEngine.reset before 3953703: _active_triggers was left alone *)
+Definition reset_keeping_triggers (e : engine) : engine :=
   mkEng (map reset_slot (e_slots e)) [] 0 [] (map reset_proc (e_procs e)) (map reset_proc (e_tbs e))
         (e_delta e) (e_active e) false.
 
@@ -333,7 +338,8 @@ Definition fresh (e : engine) : engine :=
 
 (* what a testbench / the user can observe of an engine state and what determines the values computed
    from it: signal values, memory rows and queued writes, pending set, time, scheduled wake-ups,
-   process flags and coroutine positions, clock phases *)
+   active triggers, process flags and coroutine positions, clock phases.  Left out: _delta_cycles (VCD
+   time stamps only) and the waker lists of the slots (stale closures switch themselves off). *)
 Definition obs_slot (s : slot) : list Z * list Z * list (Z * Z) :=
   match s with
   | SSig g => ([sg_init g; sg_curr g; sg_next g], [], [])
@@ -341,11 +347,12 @@ Definition obs_slot (s : slot) : list Z * list Z * list (Z * Z) :=
   end.
 Record observation := mkObs {
   o_slots : list (list Z * list Z * list (Z * Z)); o_pending : list Z; o_now : Z; o_wakers : list (Z * Z);
-  o_procs : list proc; o_tbs : list proc; o_running : bool }.
+  o_procs : list proc; o_tbs : list proc; o_active : list Z; o_running : bool }.
 Definition observe (e : engine) : observation :=
-  mkObs (map obs_slot (e_slots e)) (e_pending e) (e_now e) (e_wakers e) (e_procs e) (e_tbs e) (e_running e).
+  mkObs (map obs_slot (e_slots e)) (e_pending e) (e_now e) (e_wakers e) (e_procs e) (e_tbs e) (e_active e)
+        (e_running e).
 
-(* Consequence of the field that is NOT reset, on the timeline alone.  A stale trigger left in
+(* Why _active_triggers matters, on the timeline alone.  A stale trigger left in
    _active_triggers is run by the first step_design(): _PyTriggerState.run re-arms its delay wakers
    (`set_delay_waker(interval, waker)`), so the timeline of the rerun has one more deadline.
    `stops fuel now wakers`: the successive values of timeline.now over `fuel` calls of advance()
